@@ -47,6 +47,7 @@ type idCase struct {
 	N                          int
 	Fwd, Strip, Shim, Sessions bool
 	Forged, Auth, Kind         string
+	Asserted                   string
 }
 type httpCases struct {
 	Req  []reqCase  `json:"req"`
@@ -304,6 +305,17 @@ func concreteReqHeader(class string, rng *rand.Rand, slot int) []hpair {
 		return []hpair{{"Content-Type", "application/x-" + t}}
 	case "range":
 		return []hpair{{"Range", "bytes=0-" + strconv.Itoa(rng.Intn(1000))}}
+	case "ct-form":
+		return []hpair{{"Content-Type", "application/x-www-form-urlencoded"}}
+	case "ct-form-charset":
+		return []hpair{{"Content-Type", "application/x-www-form-urlencoded; charset=UTF-8"}}
+	case "ct-multipart":
+		return []hpair{{"Content-Type", "multipart/form-data; boundary=----b" + t}}
+	case "ct-json":
+		return []hpair{{"Content-Type", "application/json"}}
+	case "hop-lookalike":
+		// end-to-end fields whose names merely resemble hop-by-hop ones
+		return []hpair{{"Proxy-Trace-Id", "p-" + t}, {"Connection-Id", "c-" + t}, {"Keep-Alive-Hint", "k-" + t}, {"Upgrade-Insecure-Requests", "1"}, {"Te-Extension", "x-" + t}, {"Trailer-Hint", "h-" + t}}
 	case "many":
 		var hs []hpair
 		for k := 0; k < 40; k++ {
@@ -495,6 +507,8 @@ func concreteRespHeader(class string, rng *rand.Rand, slot int) []hpair {
 		return []hpair{{"Proxy-Authenticate", "Basic realm=\"" + t + "\""}}
 	case "hop-upgrade":
 		return []hpair{{"Upgrade", "h2c"}}
+	case "hop-lookalike":
+		return []hpair{{"Proxy-Status", "inner; error=" + t}, {"Proxy-Trace-Id", "p1-" + t}, {"Proxy-Trace-Id", "p2-" + t}, {"Connection-Id", "c-" + t}, {"Keep-Alive-Hint", "k-" + t}, {"Upgrade-Policy", "u-" + t}}
 	case "date":
 		return []hpair{{"Date", "Tue, 15 Nov 1994 08:12:31 GMT"}}
 	case "server":
@@ -609,6 +623,9 @@ func buildResp(c respCase, rng *rand.Rand, id string) *scriptedResp {
 	var names []string
 	for k := 0; k < declared; k++ {
 		n := fmt.Sprintf("X-Decl-%d-%s", k, randToken(rng, 3))
+		if k == 1 {
+			n = "Proxy-Timing-" + randToken(rng, 3) // an end-to-end trailer whose name starts like a hop-by-hop field
+		}
 		names = append(names, n)
 		trailers = append(trailers, hpair{textproto.CanonicalMIMEHeaderKey(n), "dval-" + randToken(rng, 5)})
 	}
@@ -1015,6 +1032,9 @@ func identityDriver(a *Args) {
 			}
 			id := fmt.Sprintf("i%d%s", c.N, pass)
 			asserted := "user-" + randToken(rng, 6) + "@example.com"
+			if c.Asserted == "empty" {
+				asserted = "" // the proxy asserts no identity: the backend sees exactly one, empty, value
+			}
 			var hdrs []hpair
 			var sentUser, sentAuth []string
 			addU := func(name, v string) { hdrs = append(hdrs, hpair{name, v}); sentUser = append(sentUser, v) }
@@ -1092,7 +1112,7 @@ func identityDriver(a *Args) {
 			mu.Lock()
 			s := seen[id]
 			mu.Unlock()
-			sig := fmt.Sprintf("id:fwd=%v/strip=%v/shim=%v/sess=%v/%s/%s/%s", k.fwd, k.strip, k.shim, k.sessions, c.Forged, c.Auth, c.Kind)
+			sig := fmt.Sprintf("id:fwd=%v/strip=%v/shim=%v/sess=%v/%s/%s/%s/asserted=%s", k.fwd, k.strip, k.shim, k.sessions, c.Forged, c.Auth, c.Kind, c.Asserted)
 			if pass != "" {
 				sig += ":concurrent"
 			}
